@@ -189,7 +189,9 @@ def run(rep, tier, seed, replay):
     # 3./4. execute on the real code, TLC judges
     sets = {'direct': behaviours}
     if os.path.isdir(os.path.join(core.HARNESS, 'server', 'c06')) and not os.environ.get('VERIF_C12_NOSERVER'):
-        sets['server'] = behaviours if not quick else behaviours[:n_graph][::40] + behaviours[n_graph:][:100]
+        # real Servers cost ~50 ms per behaviour: a systematic sample of the cover + simulated behaviours
+        sets['server'] = (behaviours[:n_graph][::40] + behaviours[n_graph:][:100] if quick
+                          else behaviours[:n_graph][::12] + behaviours[n_graph:][:3000])
         rep.cov['server_binding_behaviours'] = len(sets['server'])
     with core.scratch('c12') as d:
         trs = run_bindings(rep, sets, d)
